@@ -131,6 +131,11 @@ ERROR_ARRAY_ACCESS_WITH_NONSCALAR = ErrorMessage(
 ERROR_ARRAY_ACCESS_WITH_NONINTEGER = ErrorMessage(
     2010, Severity.ERROR, """Array access requires an integer, got '{}'."""
 )
+ERROR_SWIZZLE_COMPONENT_OUT_OF_RANGE = ErrorMessage(
+    2011,
+    Severity.ERROR,
+    """Swizzle mask '{}' selects a component beyond the {} component(s) of the type.""",
+)
 
 ERROR_AMBIGUOUS_FUNCTION_CALL = ErrorMessage(
     2101, Severity.ERROR, """Ambiguous function call: '{}'."""
